@@ -16,7 +16,7 @@ from vlib import core
 QUICK = dict(Versions="{1, 2}", Counts="{0, 1, 2, 3}", Degrees="{0, 1, 2, 3}", FracBits="{0, 12, 24, 30}",
              Patterns='{"perm", "ff", "80", "7f80"}', Frames='{"stored0", "deflate"}', CloudCounts="{0, 1, 2}",
              Profiles="{1, 2, 3, 4, 5}", EdgeCounts="{15}",
-             # FbLadderSet of SplatFormat.tla (checked against it by DeliveryFull.cfg's ASSUME-free twin below)
+             # must contain FbLadderSet of SplatFormat.tla (SplatGen invariant FbLaw)
              FbLadder="{0, 1, 6, 7, 8, 9, 14, 15, 16, 17, 22, 23, 24, 25, 30, 31, 32, 33, 62, 63, 64, 65, 126, 127, 128, 129, 255}",
              Grans="{32768, 4096, 509}", LadderFrames='{"deflate"}', Deliveries="{0, 1, 7, 4096, 100001, 100013}")
 THOROUGH = dict(QUICK, EdgeCounts="{15, 30}", FbLadder="{%s}" % ", ".join(str(i) for i in range(256)),
@@ -31,7 +31,7 @@ def gen_cfg(path, consts):
         f.write("CONSTANTS\n")
         for k, v in consts.items():
             f.write("  %s = %s\n" % (k, v))
-        f.write("SPECIFICATION Spec\nINVARIANTS Emit Tiles Ordered HalfLaw LadderLaw EdgeLaw\nCHECK_DEADLOCK FALSE\n")
+        f.write("SPECIFICATION Spec\nINVARIANTS Emit Tiles Ordered HalfLaw LadderLaw EdgeLaw FbLaw\nCHECK_DEADLOCK FALSE\n")
 
 
 def design_level(ctx):
